@@ -593,4 +593,21 @@ structure Clean (l : Life) : Prop where
   tables : l.tablesCleared = true
   channel : l.chanClosed = true
 
+theorem reach_step {l l' : Life} {e : Ev} (h : Reach l) (hs : step l e = some l') : Reach l' := by
+  obtain ⟨es, hr⟩ := h
+  refine ⟨es ++ [e], ?_⟩
+  have key : ∀ (es : List Ev) (t : Life), run t es = some l → run t (es ++ [e]) = some l' := by
+    intro es
+    induction es with
+    | nil => intro t ht; simp only [run, Option.some.injEq] at ht; subst ht; simp [run, hs]
+    | cons e' es ih =>
+      intro t ht
+      simp only [run, List.cons_append] at ht ⊢
+      split at ht
+      · rename_i t1 ht1
+        first | rw [ht1] | skip
+        exact ih t1 ht
+      · cases ht
+  exact key es _ hr
+
 end Rpyc.Proto.Life
